@@ -7,10 +7,14 @@ import subprocess
 from . import kani
 
 
-def kani_counterexample(scratch, ob, logdir):
+def kani_counterexample(scratch, ob, logdir, solver_s=None):
     """Re-run a failed harness with concrete playback. Kani writes a #[test] into the scratch copy of the
     real source file; `cargo kani playback` then executes that test natively: the real code, concrete inputs."""
-    r = kani.run_harness(scratch, ob["crate"], ob.get("features") or [], ob["harness"], ob.get("timeout_s", 900),
+    # Trace generation is far slower than the verdict itself for the heavy harnesses (25 min+ where the verdict took 80 s), so
+    # its budget is tied to the time the verdict took: 8x, at least 300 s, at most the harness's own cap. Without a
+    # counterexample the violation is still reported (`no-failing-input-found`, obligation + solver output in the replay file).
+    budget = int(min(ob.get("timeout_s", 900), max(300, 8 * (solver_s or 0))))
+    r = kani.run_harness(scratch, ob["crate"], ob.get("features") or [], ob["harness"], budget,
                          os.path.join(logdir, "cex"), extra=["-Z", "concrete-playback", "--concrete-playback=print"])
     out = open(r["log"]).read()
     cex = {"values": [], "test": None, "replayed": False}
@@ -34,7 +38,7 @@ def kani_counterexample(scratch, ob, logdir):
     if ob.get("no_playback"):
         cex["replay_note"] = "native playback not attempted: harness uses kani::stub (not applied outside the verifier)"
         return cex
-    r2 = kani.run_harness(scratch, ob["crate"], ob.get("features") or [], ob["harness"], ob.get("timeout_s", 900),
+    r2 = kani.run_harness(scratch, ob["crate"], ob.get("features") or [], ob["harness"], budget,
                           os.path.join(logdir, "cex_inplace"),
                           extra=["-Z", "concrete-playback", "--concrete-playback=inplace"])
     tn = re.search(r"fn (kani_concrete_playback_\w+)", cex["test"])
